@@ -1,5 +1,7 @@
 //! C37: reconnect back-off (client/retry.rs) through the `verif_backoff` hook.
-use crate::util::*;
+#[path = "../util.rs"]
+mod util;
+use util::*;
 use opcua::client::retry::SessionRetryPolicy;
 use std::time::Duration;
 
@@ -68,4 +70,4 @@ impl Property for P {
         Out { tag, term, out }
     }
 }
-pub fn main(a: &Args) { drive::<P>(a) }
+fn main() { run_main::<P>() }
